@@ -115,9 +115,14 @@ Definition q_text (d : list (list bq)) : list N :=
 Definition fq_text (d : list (list bq)) : list N := [91; 63; 40] ++ q_text d ++ [41; 93].
 Inductive fstep := FS (x : rstep) | FE (isteps : list rstep) | FC (isteps : list rstep) (o : cmpop) (lit : list N) | FN (isteps : list rstep)
                  | FQ (d : list (list bq))
-                 | FR (x : fstep).          (* `..` before a filter: the filter applied to every container below, in pre-order *)
+                 | FR (x : fstep)           (* `..` before a filter: the filter applied to every container below, in pre-order *)
+                 | FCS (isteps : list rstep) (a : nat) (o : cmpop) (b : nat) (lit : list N).   (* a comparison with a / b blanks before / after its operator *)
+Definition scmp_inner (i : list rstep) (a : nat) (o : cmpop) (b : nat) (lit : list N) : list N :=
+  64 :: render_steps i ++ blanks a ++ op_text o ++ blanks b ++ lit.
+Definition scmp_text (i : list rstep) (a : nat) (o : cmpop) (b : nat) (lit : list N) : list N :=
+  [91; 63; 40] ++ scmp_inner i a o b lit ++ [41; 93].
 Fixpoint render_fstep (x : fstep) : list N :=
   match x with FS y => render_rstep y | FE i => filt_text i | FC i o lit => cmp_text i o lit | FN i => neg_text i | FQ d => fq_text d
-             | FR y => 46 :: 46 :: render_fstep y end.
+             | FR y => 46 :: 46 :: render_fstep y | FCS i a o b lit => scmp_text i a o b lit end.
 Definition render_fsteps (l : list fstep) : list N := flat_map render_fstep l.
 Definition fchain_path (l : list fstep) : list N := 36 :: render_fsteps l.
